@@ -45,6 +45,9 @@ CHECKS = {
     'C15': ('table extraction from if-chains/switches (escape, unescape, jsmn accept sets) compared as relations; forward must-analysis of container non-emptiness on the CFG of Data::fromJSON; linear-form comparison of allocation size and parser capacity',
             'Decides for all byte values that the JSON escape writer, the unescape reader and the jsmn string scanner agree on every escaped character, that Data::fromJSON never peeks or pops an empty stack on any CFG path, and that the sentinel token the walker relies on is kept.',
             'Not decided: equality of round-tripped Data trees for all values; absence of out-of-bounds inside jsmn.c itself; Event<->Data agreement is decided under C14.'),
+    'C16': ('table extraction from the type-dispatch if-chain of getLuaAsData and the switch of getDataAsLua (Lua type tag -> Data::type -> Lua value), composed and compared with the identity; literal-set comparison of published system variables against assign()\'s rejected names; CFG dominance of the protection check in init() and of the params/namelist merge in setEvent; type of the container that orders array items',
+            'Decides that strings, numbers, booleans and nil keep their kind across the Data boundary (strings are never re-evaluated as code), that every Lua type tag and every Data::type has an arm, that each published system variable is refused by assign() before anything touches it, that event params and namelist are merged before the single conversion into _event.data, and that array items are ordered numerically.',
+            'Not decided: value equality for arbitrarily nested values (depends on run-time shapes such as empty tables or numeric-key maps).'),
     'C17': ('LALR(1) table interrogation: the shipped yypact/yytable/... arrays are read from the AST and walked like bison\'s skeleton for every operator pair/triple; switch-arm table extraction (constructed node kinds and arities vs evaluator arms); sequencing rule on the operand iterator; CFG dominance of the zero-divisor and index-bound tests',
             'Decides exhaustively over all 225 ordered operator pairs (3375 triples in the thorough tier) how the shipped parser groups them, that every parsed operator of the set is evaluated with the arity it is built with, that operand fetches are sequenced, and that division/modulo and array indexing are guarded.',
             'Not decided: numeric results, struct/array read-back values.'),
